@@ -46,6 +46,7 @@ type Clause struct {
 	AnchorFile              string
 	AnchorOff, AnchorEndOff int
 	Known                   bool
+	Broken                  string // the clause does not apply to the current source (anchor or loop missing, does not type-check)
 }
 
 type Contract struct {
@@ -79,10 +80,12 @@ type Contract struct {
 	File          string
 	Line          int
 	// phase-1 info
-	ParamNames  []string
-	ResultNames []string
-	NLoops      int
-	Abstract    bool
+	ParamNames    []string
+	ResultNames   []string
+	NLoops        int
+	Abstract      bool
+	BrokenClauses []*Clause // clauses removed because they do not apply to the current source; each is reported as a failed obligation
+	Broken        string    // the function the contract names does not exist in the current source
 }
 
 var tagRe = regexp.MustCompile(`\[((?:C\d+\s*)+)\]`)
@@ -868,7 +871,7 @@ func generateClauses(pkg *packages.Package, contracts []*Contract) (string, []er
 		}
 		fs := findFuncSyntax(pkg, c.Func)
 		if fs == nil {
-			errs = append(errs, fmt.Errorf("%s:%d: function %s not found in %s", c.File, c.Line, c.Func, pkg.PkgPath))
+			c.Broken = fmt.Sprintf("function %s not found in %s", c.Func, pkg.PkgPath)
 			continue
 		}
 		si := sigOf(pkg, fs)
@@ -899,8 +902,11 @@ func generateClauses(pkg *packages.Package, contracts []*Contract) (string, []er
 			all = append(all, c.PanicsWhen)
 		}
 		for _, cl := range all {
+			if cl.Broken != "" {
+				continue
+			}
 			if err := g.genClause(c, cl, fs, si); err != nil {
-				errs = append(errs, err)
+				cl.Broken = err.Error()
 			}
 		}
 	}
@@ -1056,4 +1062,89 @@ func replaceIdent(s, name, with string) string {
 		i++
 	}
 	return sb.String()
+}
+
+// pruneBroken moves the clauses that do not apply to the current source out of the contract; VerifyFunc
+// reports each of them as a failed obligation of the clause's own properties.
+func pruneBroken(c *Contract) {
+	keep := func(cs []*Clause) []*Clause {
+		var out []*Clause
+		for _, cl := range cs {
+			if cl.Broken != "" {
+				c.BrokenClauses = append(c.BrokenClauses, cl)
+			} else {
+				out = append(out, cl)
+			}
+		}
+		return out
+	}
+	c.Requires, c.Ensures, c.Modifies, c.Asserts, c.Shows = keep(c.Requires), keep(c.Ensures), keep(c.Modifies), keep(c.Asserts), keep(c.Shows)
+	for k := range c.Invs {
+		c.Invs[k] = keep(c.Invs[k])
+	}
+	for k := range c.Preserved {
+		c.Preserved[k] = keep(c.Preserved[k])
+	}
+	for k, d := range c.Decr {
+		if d != nil && d.Broken != "" {
+			c.BrokenClauses = append(c.BrokenClauses, d)
+			delete(c.Decr, k)
+		}
+	}
+	if c.PanicsWhen != nil && c.PanicsWhen.Broken != "" {
+		c.BrokenClauses = append(c.BrokenClauses, c.PanicsWhen)
+		c.PanicsWhen = nil
+	}
+}
+
+// markBrokenAt: a type error at line `line` of a generated clause file is charged to the clause whose
+// function (or old-value helper) contains that line.
+func markBrokenAt(src string, line int, msg string, contracts []*Contract) bool {
+	lines := strings.Split(src, "\n")
+	name := ""
+	for i := line - 1; i >= 0 && i < len(lines); i-- {
+		if strings.HasPrefix(lines[i], "func verifClause_") {
+			name = lines[i][len("func "):]
+			if j := strings.Index(name, "("); j >= 0 {
+				name = name[:j]
+			}
+			break
+		}
+	}
+	if name == "" {
+		return false
+	}
+	if j := strings.Index(name, "_old"); j >= 0 {
+		if _, err := fmt.Sscanf(name[j+4:], "%d", new(int)); err == nil {
+			name = name[:j]
+		}
+	}
+	found := false
+	for _, c := range contracts {
+		var all []*Clause
+		all = append(all, c.Requires...)
+		all = append(all, c.Ensures...)
+		all = append(all, c.Modifies...)
+		all = append(all, c.Asserts...)
+		all = append(all, c.Shows...)
+		for _, is := range c.Invs {
+			all = append(all, is...)
+		}
+		for _, ps := range c.Preserved {
+			all = append(all, ps...)
+		}
+		for _, d := range c.Decr {
+			all = append(all, d)
+		}
+		if c.PanicsWhen != nil {
+			all = append(all, c.PanicsWhen)
+		}
+		for _, cl := range all {
+			if cl != nil && cl.FnName == name && cl.Broken == "" {
+				cl.Broken = msg
+				found = true
+			}
+		}
+	}
+	return found
 }
